@@ -174,13 +174,13 @@ func i6Taint(fn *ssa.Function) map[ssa.Value]string {
 	eachInstr(fn, func(in ssa.Instruction) {
 		switch x := in.(type) {
 		case *ssa.Field:
-			if _, n := namedOf(x.X.Type()); n == "rangeValue" {
+			if _, n := namedOf(x.X.Type()); strings.HasPrefix(n, "range") {
 				t[x] = "rangeValue." + x.X.Type().Underlying().(*types.Struct).Field(x.Field).Name()
 			}
 		case *ssa.UnOp:
 			if x.Op == token.MUL {
 				if fa, ok := x.X.(*ssa.FieldAddr); ok {
-					if _, n := namedOf(fa.X.Type()); n == "rangeValue" {
+					if _, n := namedOf(fa.X.Type()); strings.HasPrefix(n, "range") {
 						t[x] = "rangeValue field"
 					}
 				}
@@ -471,6 +471,18 @@ func i6Safe(b *ssa.BinOp, taint map[ssa.Value]string) string {
 			if k, ok := constInt(o); ok && k >= 0 && k <= 1<<20 && upperBoundedByLen(blk, t) {
 				return "operand is below a length, adding a small constant cannot overflow"
 			}
+			// x+1 under a dominating x < y (whatever y is): x is at most the maximum minus one
+			if k, ok := constInt(o); ok && k == 1 {
+				for _, f := range pathFacts(blk) {
+					if bo, ok := f.Cond.(*ssa.BinOp); ok {
+						lt := (bo.Op == token.LSS && f.Truth) || (bo.Op == token.GEQ && !f.Truth)
+						gt := (bo.Op == token.GTR && f.Truth) || (bo.Op == token.LEQ && !f.Truth)
+						if (lt && sameFieldLoad2(bo.X, t)) || (gt && sameFieldLoad2(bo.Y, t)) || (lt && bo.X == t) || (gt && bo.Y == t) {
+							return "the operand is strictly below another value of its type, so adding one cannot overflow"
+						}
+					}
+				}
+			}
 		}
 	case token.SUB:
 		if nonNegative(blk, b.X) && nonNegative(blk, b.Y) {
@@ -529,7 +541,7 @@ func reachesNumberSink(v ssa.Value, seen map[ssa.Value]bool, depth int) bool {
 			}
 		case *ssa.Store:
 			if fa, ok := x.Addr.(*ssa.FieldAddr); ok && x.Val == v {
-				if _, n := namedOf(fa.X.Type()); n == "rangeValue" {
+				if _, n := namedOf(fa.X.Type()); strings.HasPrefix(n, "range") {
 					return true
 				}
 				// the value of an integer literal: a numeric field of a scanner/parser structure
@@ -585,4 +597,20 @@ func upperBounded(b *ssa.BasicBlock, v ssa.Value) bool {
 		}
 	}
 	return false
+}
+
+
+// sameFieldLoad2: two loads of the same field of the same object (each `x.f` is a FieldAddr of its own).
+func sameFieldLoad2(a, b ssa.Value) bool {
+	if sameLoad(a, b) {
+		return true
+	}
+	la, ok1 := a.(*ssa.UnOp)
+	lb, ok2 := b.(*ssa.UnOp)
+	if !ok1 || !ok2 || la.Op != token.MUL || lb.Op != token.MUL {
+		return false
+	}
+	fa, ok1 := la.X.(*ssa.FieldAddr)
+	fb, ok2 := lb.X.(*ssa.FieldAddr)
+	return ok1 && ok2 && fa.Field == fb.Field && sameValue2(fa.X, fb.X)
 }
